@@ -82,7 +82,8 @@ type txState struct {
 	inflight atomic.Int64
 	counts   map[string]int // bucket|kind -> count
 	mu       sync.Mutex
-	owner    int64 // goroutine that called Read/Write
+	owner    int64    // goroutine that called Read/Write
+	handed   [][]byte // copies handed out under Poison
 }
 
 // goid returns the id of the calling goroutine.
@@ -124,6 +125,12 @@ type Proxy struct {
 	TrackValues bool
 	liveRanges  map[int][][2]uintptr
 	deadRanges  [][2]uintptr
+
+	// Poison: every key and value the store hands out (Get, ForEach, scans) is a private copy that
+	// is overwritten with 0xA5 when its transaction ends - what bbolt's contract allows to happen to
+	// the real thing ("valid for the life of the transaction"), made certain.  Code that keeps such
+	// a slice beyond its transaction then reads poison instead of, by luck, the old bytes.
+	Poison bool
 
 	// Hook, when set, is called before every operation (scheduling point).
 	Hook func(Point)
@@ -353,6 +360,19 @@ func (p *Proxy) AliasesEndedTx(b []byte) bool {
 	return false
 }
 
+// lend returns b itself, or under Poison a private copy that dies with the transaction.
+func (p *Proxy) lend(tx *txState, b []byte) []byte {
+	if !p.Poison || b == nil {
+		return b
+	}
+	c := make([]byte, len(b))
+	copy(c, b)
+	tx.mu.Lock()
+	tx.handed = append(tx.handed, c)
+	tx.mu.Unlock()
+	return c
+}
+
 func (p *Proxy) finish(tx *txState) {
 	if p.TrackValues {
 		p.mu.Lock()
@@ -367,6 +387,14 @@ func (p *Proxy) finish(tx *txState) {
 	for tx.inflight.Load() > 0 {
 		runtime.Gosched()
 	}
+	tx.mu.Lock()
+	for _, b := range tx.handed {
+		for i := range b {
+			b[i] = 0xA5
+		}
+	}
+	tx.handed = nil
+	tx.mu.Unlock()
 }
 
 // ---- diskstore.DiskStore ----
@@ -489,7 +517,7 @@ func (b *bucketProxy) Get(k []byte) []byte {
 		b.p.liveRanges[b.tx.id] = append(b.p.liveRanges[b.tx.id], [2]uintptr{start, start + uintptr(len(v))})
 		b.p.mu.Unlock()
 	}
-	return v
+	return b.p.lend(b.tx, v)
 }
 
 func (b *bucketProxy) Put(k, v []byte) error {
@@ -520,7 +548,7 @@ func (b *bucketProxy) ForEach(f func(k, v []byte) error) error {
 		if b.tx.ended.Load() {
 			return ErrTxEnded
 		}
-		return f(k, v)
+		return f(b.p.lend(b.tx, k), b.p.lend(b.tx, v))
 	})
 }
 
@@ -530,7 +558,7 @@ func (b *bucketProxy) PrefixScan(prefix []byte, f func(k, v []byte) error) error
 		return err
 	}
 	defer b.p.done(b.tx)
-	return b.inner.PrefixScan(prefix, f)
+	return b.inner.PrefixScan(prefix, func(k, v []byte) error { return f(b.p.lend(b.tx, k), b.p.lend(b.tx, v)) })
 }
 
 func (b *bucketProxy) RangeScan(start, end []byte, inclusive bool, f func(k, v []byte) error) error {
@@ -539,7 +567,7 @@ func (b *bucketProxy) RangeScan(start, end []byte, inclusive bool, f func(k, v [
 		return err
 	}
 	defer b.p.done(b.tx)
-	return b.inner.RangeScan(start, end, inclusive, f)
+	return b.inner.RangeScan(start, end, inclusive, func(k, v []byte) error { return f(b.p.lend(b.tx, k), b.p.lend(b.tx, v)) })
 }
 
 // LateSignature summarises late uses into a stable signature: which bucket
